@@ -134,6 +134,14 @@ def graph_fixed():
     # ... and from a file of the same name next to it
     side = add(Item("FgTypesSide", "FgTypesSide", "named", fields=[Field("fg_side", prim("bool"))], export_to="fgapi2/types.ts"))
     add(Item("FgTypesUser", "FgTypesUser", "named", fields=[Field("fg_s", user(side)), Field("fg_l", user(low))], export_to="fgapi/v2/x/types.ts"))
+    # directory names that need escaping inside the import statement's string literal
+    qd = add(Item("FgQuoteDep", "FgQuoteDep", "named", fields=[Field("fg_q", prim("u8"))], export_to='fg"quo"te/'))
+    bd = add(Item("FgBackslashDep", "FgBackslashDep", "named", fields=[Field("fg_b", prim("u8"))], export_to="fgback\\slash/n.ts"))
+    add(Item("FgQuoteUser", "FgQuoteUser", "named", fields=[Field("fg_qd", user(qd)), Field("fg_bd", Ty("opt", args=[user(bd)]))], export_to="fgquoteuser/"))
+    # ... and both in one file with a third type, so that the statements go through the merge
+    add(Item("FgQuoteUser2", "FgQuoteUser2", "named", fields=[Field("fg_qd2", user(qd)), Field("fg_c2", user(cust))], export_to="fgquoteuser/shared.ts"))
+    add(Item("FgQuoteUser3", "FgQuoteUser3", "named", fields=[Field("fg_bd3", user(bd)), Field("fg_qd3", Ty("vec", args=[user(qd)]))], export_to="fgquoteuser/shared.ts"))
+    add(Item("FgQuoteHolder", "FgQuoteHolder", "named", fields=[Field("fg_h2", Ty("user", item=items[-2])), Field("fg_h3", Ty("user", item=items[-1]))]))
     g.items = items
     g.make_entries(per_generic=1)
     return g
